@@ -57,6 +57,18 @@ QApply(cs) ==
              starts == SelectSeq(SeqRange(n), LAMBDA p : p + cs.size <= n /\ p % cs.step = 0)
              key(p) == <<"slice", <<"i", p>>, <<"i", p + cs.size>>, SNone>>
          IN [k |-> "items", items |-> [w \in 1..Len(starts) |-> IF cs.q.axis = 0 THEN FrameIloc(V, key(starts[w]), KAll) ELSE FrameIloc(V, KAll, key(starts[w]))]]
+    (* array-valued windows: each window as ONE array in the resolved dtype of the window's columns, labelled (items form) by its last label *)
+    [] cs.op = "q_iter_window_array" ->
+         LET n == IF cs.q.axis = 0 THEN NRows(V) ELSE NCols(V)
+             starts == SelectSeq(SeqRange(n), LAMBDA p : p + cs.size <= n /\ p % cs.step = 0)
+             key(p) == <<"slice", <<"i", p>>, <<"i", p + cs.size>>, SNone>>
+             W(p) == IF cs.q.axis = 0 THEN FrameIloc(V, key(p), KAll) ELSE FrameIloc(V, KAll, key(p))
+             (* cs.loose: the members are each homogeneous in a dtype of their OWN; which dtype a window over several of them resolves to  *)
+             (* is then not derivable from one concatenated Frame, and the cells are compared by value (whole floats as ints)               *)
+             Arr(w, p) == LET dt == IF cs.loose THEN <<"any", 0>> ELSE ResolveSeq([j \in 1..Len(w.cols) |-> w.cols[j].dt]) IN
+                          [dt |-> dt, rows |-> [i \in 1..Len(w.index) |-> [j \in 1..Len(w.cols) |-> IF cs.loose THEN LooseCell(w.cols[j].vals[i]) ELSE Cast(w.cols[j].vals[i], dt)]],
+                           label |-> IF cs.items THEN (IF cs.q.axis = 0 THEN V.index[p + cs.size] ELSE V.columns[p + cs.size]) ELSE None]
+         IN [k |-> "rows_seq", wins |-> [w \in 1..Len(starts) |-> Arr(W(starts[w]), starts[w])]]
     [] cs.op = "q_head" -> FrameIloc(V, <<"slice", SNone, <<"i", cs.count>>, SNone>>, KAll)                 \* head is about rows whatever the Quilt axis
 QDiff(e, a) ==
   IF e = a THEN "ok"
@@ -65,7 +77,7 @@ QDiff(e, a) ==
          (IF Len(e.items) # Len(a.items) THEN "item_count"
           ELSE LET bad == {i \in 1..Len(e.items) : Diff(e.items[i], a.items[i]) # "ok"} IN
                IF bad = {} THEN "ok" ELSE Diff(e.items[CHOOSE i \in bad : TRUE], a.items[CHOOSE i \in bad : TRUE]))
-  ELSE IF e.k \in {"shape", "labels", "rows"} THEN (IF a.k # e.k THEN "kind" ELSE e.k)
+  ELSE IF e.k \in {"shape", "labels", "rows", "rows_seq"} THEN (IF a.k # e.k THEN "kind" ELSE e.k)
   ELSE Diff(e, a)
 
 (* ---- Batch: a lazy map over (label, Frame) pairs --------------------------------------------------------------------------- *)
